@@ -641,6 +641,8 @@ def intern_funnel(rec, F):
         for b, tt in fn.calls():
             if _uses_field(fn, b, "intern_cache"):
                 kinds.add(lastseg(tt["f"]))
+        # read-only uses (a length for a debug assertion, a lookup) mutate nothing
+        kinds -= {"len", "is_empty", "get", "contains_key", "iter", "capacity", "values", "keys", "get_key_value"}
         ok = p in funnels or kinds <= {"retain"} or fn.name in ("new", "default")
         rec.inst(R, "writer:" + p, ok=ok, loc=fn.loc)
         if not ok:
